@@ -8,4 +8,14 @@ TEXTS = {
         "level_text": "Exploration, exhaustive inside the stated window: every (dx,dy) in [-36,36]^2 (quick) / [-64,64]^2 (thorough) at three translations, every radius up to 160/400 for both circle rasterizers, every semi-axes pair up to 56/100, each checked for count, end points, connectivity, monotone major axis, bounding box, distance to the ideal curve (exact integer inequalities), symmetry, and apply_rasterizer into a tight view between guard pages. Nothing is claimed outside the window.",
         "level_note": "Trusts interleaved_view/gray8 pixel access (checked by C01-C03). Known finding F9b narrows the distance clause for shallow lines to the algorithm's own bound.",
     },
+    "C06": {
+        "technique": "complete enumeration of source values for every ordered pair of channel models (stratified for 32-bit/float) against an exact rational rescaling oracle",
+        "level_text": "Exploration; exhaustive for every ordered pair of the 23 value models over all source values of <=16-bit and packed channels (about 57 million conversions), stratified for 32-bit and float sources, thorough adds complete 2^32 sweeps for seven 32-bit pairs. Each conversion is checked for end points, range, monotonicity, distance to the exact linear map, round trip through any channel with at least as many levels (incl. float32), and identity. A sanitized build repeats a 1/16 slice.",
+        "level_note": "Exact arithmetic in __int128/long double is the trusted base. Reference proxies are exercised for a handful of bit layouts only (C08 covers their bit discipline).",
+    },
+    "C07": {
+        "technique": "complete enumeration of operand pairs (lattice for 16-bit in quick, all 2^32 in thorough) against exact integer arithmetic",
+        "level_text": "Exploration; exhaustive over all operand pairs of 8-bit and packed (1..12 bit) channels and, in the thorough tier, of u16/s16/packed16 (2^32 pairs each); quick uses all a x a 1/97 lattice of b plus boundary columns. channel_invert over every value of every <=16-bit model and stratified/complete 32-bit. Float on a grid with stated tolerances.",
+        "level_note": "Exact integer reference; signed channels are compared after the documented shift to the unsigned range.",
+    },
 }
